@@ -97,7 +97,7 @@ def _coef_history_case():
 CONTRACTS = [Contract("wntr.network.elements:HeadPump.get_head_curve_coefficients over a change of the curve", P + ["C11", "C10"], [_coef_history_case()],
                       interpret_always=(HeadPump.get_head_curve_coefficients, _compute_change_compute),
                       trusted=["CurveRegistry.__getitem__ returns the registered curve"]),
-             Contract("wntr.network.elements:HeadPump.get_head_curve_coefficients", P + ["C11"], [_coef_case(1, False), _coef_case(2, False), _coef_case(2, False, backwards=True)],
+             Contract("wntr.network.elements:HeadPump.get_head_curve_coefficients", P + ["C11", "C03"], [_coef_case(1, False), _coef_case(2, False), _coef_case(2, False, backwards=True)],
                       interpret_always=(HeadPump.get_head_curve_coefficients,),
                       trusted=["CurveRegistry.__getitem__ returns the registered curve"])
              ][::-1]
